@@ -9,7 +9,7 @@ VERIF = os.path.dirname(os.path.dirname(os.path.abspath(__file__)))
 CLAIMED = {
     "C08": dict(
         technique="TLA+ abstract spec SemAbs and fine-grained SemImpl (wait / wait_until / signal on the internal condition variable) model-checked by TLC + TLC trace validation of call/return histories recorded from the real semaphores (Call/Lin/Ret, deadline-aware)",
-        text="TLC proves conservation, result<=>consumed and no-stuck-acquirer on the abstract semaphore spec for 3 actors; every recorded history of the real counting/binary/sliding semaphores (pika tasks + OS threads, hook-perturbed schedules) must be a behaviour of that spec, which settles 'for every schedule explored' rather than the single outcome a unit test asserts",
+        text="TLC proves conservation, result<=>consumed and no-stuck-acquirer on the abstract semaphore spec for 3 actors; every recorded history of the real counting/binary/sliding semaphores (pika tasks + OS threads, hook-perturbed schedules) must be a behaviour of that spec, which settles 'for every schedule explored' rather than the single outcome a unit test asserts; SlidingSemImpl (signal with max, notify loop) is model-checked for a monotone lower bound, admitted waiters and progress; SemImpl also covers the queue-entry bookkeeping of timed waits",
         note="sequential consistency in the model; histories are sampled (seeded), not exhaustive; timer wake-ups assumed at most 1 ms early",
         design="5/C08"),
     "C14": dict(
@@ -19,12 +19,12 @@ CLAIMED = {
         design="5/C14"),
     "C17": dict(
         technique="TLA+ fine-grained specs IndexQueueImpl (load/CAS steps) and DequeImpl (Michael deque: anchor CAS, push/pop/stabilize) model-checked by TLC (thorough: inductive invariant of the index queue for arbitrary bounds with Apalache) + TLC linearizability checking of recorded concurrent histories of all containers against the sequential TLA+ spec QueueAbs",
-        text="TLC proves exactly-once, partition and termination for the index queue's CAS protocol (3 threads, all interleavings) and checks every recorded concurrent history of the real index queue, Michael deque and the four lockfree back-ends (1-4 threads, hook-injected delays between anchor load and CAS) for linearizability against the sequential spec, including a quiescent drain that must return every remaining element exactly once",
+        text="TLC proves exactly-once, partition and termination for the index queue's CAS protocol (3 threads, all interleavings) and checks every recorded concurrent history of the real index queue, Michael deque and the four lockfree back-ends (1-4 threads, hook-injected delays between anchor load and CAS) for linearizability against the sequential spec, including a quiescent drain that must return every remaining element exactly once; ProducerSlotImpl models claim / creation / release of the FIFO back-end's per-thread producer slots (no slot with two live owners, nothing lost), and FIFO histories start with simultaneous first enqueues of fresh threads on a queue with recyclable slots",
         note="sequential consistency in the model; histories sampled; moodycamel ConcurrentQueue black-box; the deque model does not re-use nodes (no ABA through the freelist)",
         design="5/C17"),
     "C06": dict(
         technique="TLA+ abstract spec MutexCvAbs (owner/depth/critical-section data, Call/Lin/Ret) and fine-grained MutexImpl (owner, internal spinlock, cv queue, wake tokens) model-checked by TLC + TLC trace validation of lock/try_lock/try_lock_until/unlock histories from the real mutexes, with quiescence (lost hand-over) detection",
-        text="TLC checks mutual exclusion, only-owner-writes and hand-over liveness on the abstract spec; every recorded history of pika::mutex, timed_mutex, recursive_mutex and spinlock (tasks migrating while holding the lock, timed attempts blocked behind long critical sections, try_lock storms, detected misuse, all 8 policies in the C02 runs) must be a behaviour of it: a try_lock that fails on a free mutex, a stale critical-section value, a missing error or a blocked lock() on a free mutex at quiescence is rejected",
+        text="TLC checks mutual exclusion, only-owner-writes and hand-over liveness on the abstract spec; every recorded history of pika::mutex, timed_mutex, recursive_mutex and spinlock (tasks migrating while holding the lock, timed attempts blocked behind long critical sections, try_lock storms, detected misuse, all 8 policies in the C02 runs) must be a behaviour of it: a try_lock that fails on a free mutex, a stale critical-section value, a missing error or a blocked lock() on a free mutex at quiescence is rejected; RecursiveMutexImpl (inner mutex, owner, recursion count) is model-checked for exclusion, count = nesting depth and termination",
         note="sequential consistency; sampled schedules; spinlock-based locks are not held across yields (they never yield to the scheduler, documented)",
         design="5/C06"),
     "C07": dict(
@@ -54,17 +54,17 @@ CLAIMED = {
         design="5/C13"),
     "C09": dict(
         technique="TLA+ fine-grained specs LatchImpl (atomic counter vs. notified_/queue under the lock) and BarrierImpl (tournament tree of ticket CASes, completion, phase publication) model-checked by TLC + abstract spec LbeoAbs with TLC trace validation of latch/barrier/event/call_once histories from the real code",
-        text="TLC explores every interleaving of the latch protocol (4 participants mixing count_down/arrive_and_wait/wait) and of the barrier's tournament arrival for 3, 4 (thorough: 5) participants x 2 phases with any start node, proving no early return/departure, completion exactly once per phase and termination, and that the two seeded variants fail; real histories (participants on tasks and OS threads, more participants than workers, drops, throwing call_once bodies, simultaneous arrive_and_wait storms) must be behaviours of LbeoAbs, whose quiescence rule rejects a waiter stuck after the count reached zero / the phase advanced",
+        text="TLC explores every interleaving of the latch protocol (4 participants mixing count_down/arrive_and_wait/wait) and of the barrier's tournament arrival for 3, 4 (thorough: 5) participants x 2 phases with any start node, proving no early return/departure, completion exactly once per phase and termination, and that the two seeded variants fail; real histories (participants on tasks and OS threads, more participants than workers, drops, throwing call_once bodies, simultaneous arrive_and_wait storms) must be behaviours of LbeoAbs, whose quiescence rule rejects a waiter stuck after the count reached zero / the phase advanced; OnceImpl (call_once on event, first execution throwing) is model-checked for one runner at a time, exactly one successful execution, normal return only after it, termination",
         note="sequential consistency; sampled schedules for the real code; arrive_and_drop is modelled in BarrierDropImpl for one dropper",
         design="5/C09"),
     "C19": dict(
         technique="TLA+ fine-grained spec PuSuspendImpl (running/pre_sleep/sleeping, pu mutex, notify loop, select_active_pu) model-checked by TLC + abstract spec PuAbs with TLC trace validation of suspend/resume/submit histories from a real second pool",
-        text="TLC proves on PuSuspendImpl that nothing is queued on a PU after it went to sleep, and that suspend and resume calls return and all work completes (fair), and that a single-notify resume fails; real histories on a 3-worker pool (6 policies, elastic or not) with PU and pool suspension from OS threads and default-pool tasks, error_code and throwing forms, refusal cases and concurrent hinted submissions must be behaviours of PuAbs: refused calls leave the pool running, no task body runs on a worker between its suspend return and resume call, and after the final resume every task ran exactly once",
+        text="TLC proves on PuSuspendImpl that nothing is queued on a PU after it went to sleep, and that suspend and resume calls return and all work completes (fair), and that a single-notify resume fails; real histories on a 3-worker pool (6 policies, elastic or not) with PU and pool suspension from OS threads and default-pool tasks, error_code and throwing forms, refusal cases and concurrent hinted submissions must be behaviours of PuAbs: refused calls leave the pool running, no task body runs on a worker between its suspend return and resume call, and after the final resume every task ran exactly once; IdleStealImpl (idle-loop threshold vs. bottom-of-loop reset) shows under fairness that work parked on sleeping workers is taken over by the running ones, and histories with a partially resumed pool must complete their tasks and a further pool suspend",
         note="sequential consistency; sampled schedules; work enqueued on a PU while it falls asleep may wait for the resume (allowed by the property text)",
         design="5/C19"),
     "C04": dict(
         technique="TLA+ abstract spec RwAbs (request order, groups, grant rule, versions) and fine-grained RwMutexImpl (op-state stack CAS vs. done() exchange) model-checked by TLC + TLC trace validation of request/start/drop/grant/release histories from the real async_rw_mutex",
-        text="TLC proves exclusion and progress on the abstract spec and, on RwMutexImpl, that every started operation is granted exactly once under all interleavings with done() (and that dropping the re-check inside the CAS loop loses a grant); recorded histories from the real mutex (1-4 threads starting/dropping/releasing, copied read wrappers, mutex destroyed early, hook delays between load and CAS) must be behaviours of RwAbs: grants in group order, writers alone, each access reading exactly the number of earlier writers, no owed grant at quiescence",
+        text="TLC proves exclusion and progress on the abstract spec and, on RwMutexImpl, that every started operation is granted exactly once under all interleavings with done() (and that dropping the re-check inside the CAS loop loses a grant); recorded histories from the real mutex (1-4 threads starting/dropping/releasing, copied read wrappers, mutex destroyed early, hook delays between load and CAS) must be behaviours of RwAbs: grants in group order, writers alone, each access reading exactly the number of earlier writers, no owed grant at quiescence; RwRequestImpl enumerates all request / move-assign sequences over two mutex objects (a request joins a group of its own kind, groups chained in request order), and histories include move-assigning the mutex part-way through the request sequence",
         note="sequential consistency; sampled schedules; read()/readwrite() called from one thread",
         design="5/C04"),
     "C11": dict(
@@ -95,7 +95,7 @@ CLAIMED = {
         design="5/C18"),
     "C20": dict(
         technique="TLA+ fine-grained specs MpiPollImpl (parallel request/callback vectors, chunked MPI_Testsome, compaction), MpiWaitImpl (ready queue drained by any worker vs. the activity count) and ActivityImpl model-checked by TLC + abstract spec MpiAbs with TLC trace validation of post/send/signal/wait histories from the real MPI adaptor",
-        text="TLC proves on MpiPollImpl that a callback runs at most once and only for a request MPI reported complete, and that every request is eventually signalled, for all interleavings of adds, completions, chunked polls and compaction (dropping the chunk base breaks it); real single-rank histories across all completion modes and 1-64 outstanding receives (below, at and above the 32-request polling chunk) must be behaviours of MpiAbs: every receiver signalled exactly once, only after its message was sent, with the full payload visible, and pika::wait() returning only after all requests posted before it were signalled",
+        text="TLC proves on MpiPollImpl that a callback runs at most once and only for a request MPI reported complete, and that every request is eventually signalled, for all interleavings of adds, completions, chunked polls and compaction (dropping the chunk base breaks it); real single-rank histories across all completion modes and 1-64 outstanding receives (below, at and above the 32-request polling chunk) must be behaviours of MpiAbs: every receiver signalled exactly once, only after its message was sent, with the full payload visible, and pika::wait() returning only after all requests posted before it were signalled; MpiModeImpl checks for every mode bit / pool setting that the lock-free bookkeeping is only chosen when one thread touches the request vectors, and a part of the runs has a (forced) dedicated polling pool",
         note="one MPI implementation and one rank; MPI error paths are not exercised; sequential consistency",
         design="5/C20"),
     "C12": dict(
